@@ -259,7 +259,9 @@ def present_dxf(curves, pr):
         explicit = bool(pr.get("dup_vertices")) and all(b == 0.0 for b in B[-1:])
         if explicit:
             P, B = P + [P[0]], B + [0.0]
-        out.append("0\nLWPOLYLINE\n8\n0\n90\n%d\n70\n%d\n" % (len(P), 0 if explicit else 1))
+        # group 70 is a bit field: 1 = closed, 128 = generate the line type pattern along the whole polyline (harmless here)
+        plinegen = 128 if rs.uniform() < 0.4 else 0
+        out.append("0\nLWPOLYLINE\n8\n0\n90\n%d\n70\n%d\n" % (len(P), (0 if explicit else 1) + plinegen))
         for (x, y), b in zip(P, B):
             out.append("10\n%r\n20\n%r\n" % (float(x), float(y)) + ("42\n%r\n" % float(b) if b else ""))
     out.append("0\nENDSEC\n0\nEOF\n")
